@@ -19,13 +19,15 @@ import (
 
 // instance = one nodis.Nodis plus what is needed to reopen it
 type instance struct {
-	n       *nodis.Nodis
-	backend string // mem | pebble
-	dir     string
-	mem     storage.Storage
-	addr    string // TCP address once Serve is running
-	fault   *faultStorage
-	feed    *feedBuf
+	n        *nodis.Nodis
+	backend  string // mem | pebble
+	dir      string
+	mem      storage.Storage
+	addr     string // TCP address once Serve is running
+	fault    *faultStorage
+	feed     *feedBuf
+	feedP    *feedBuf
+	patterns []string
 }
 
 var (
